@@ -307,11 +307,17 @@ package vm
 // error: no explicit panic is reachable in it or in the constructors it inlines (KF-43 fixed: it went through vm.New,
 // which panics on purpose for compatibility).
 // (only the explicit-panic obligations of the body are kept: "trusted except panic"; the unit has no postcondition)
+// C11 / C07: vm.Run evaluates on a machine that this call allocated: nothing a machine accumulates - the globals every
+// configuration ever gave it (WithGlobals merges), its module table - can reach the evaluation of another configuration.
+// Seed C11g took the machine from a sync.Pool and wiped it "completely", except for inputGlobals: `import exec`
+// succeeded under WithoutGlobal("exec"). (caller-side rules are kept by `trusted except`.)
 //@ func Run
-//@ props C08 C03
+//@ props C08 C03 C11 C07
 //@ safety panic
 //@ trusted except panic
 //@ assume[args.wf] ctx != nil
+//@ callpre[C11,C07.run.fresh.vm] Run: fresh(recv)
+//@ callpre[C11,C07.run.fresh.vm] TOS: fresh(recv)
 
 // ---- C04 (VM side): deferred calls are stack-neutral ------------------------------------------------------------
 // callObject pushes exactly one value when it succeeds and none when it fails; the loop that runs a frame's deferred
